@@ -37,7 +37,14 @@ class Ctx:
     # ---------------------------------------------------------------- build
     def build(self, race=False):
         out = self.hx + ("-race" if race else "")
-        cmd = ["go", "build", "-tags", "verif"] + (["-race"] if race else []) + ["-o", out, "."]
+        mod = []
+        alt = os.environ.get("VERIF_REPO")  # seed testing only: build against a scratch worktree instead of /repo
+        if alt:
+            gm = open(os.path.join(HARNESS, "go.mod")).read().replace("=> /repo", "=> " + alt)
+            open(os.path.join(self.work, "go.mod"), "w").write(gm)
+            shutil.copy(os.path.join(HARNESS, "go.sum"), os.path.join(self.work, "go.sum"))
+            mod = ["-modfile=" + os.path.join(self.work, "go.mod")]
+        cmd = ["go", "build"] + mod + ["-tags", "verif"] + (["-race"] if race else []) + ["-o", out, "."]
         p = subprocess.run(cmd, cwd=HARNESS, env=GOENV, capture_output=True, text=True)
         if p.returncode != 0:
             raise Infra("harness build failed:\n" + p.stdout + p.stderr)
@@ -163,8 +170,9 @@ def finish(ctx, violations, coverage, level="model_checking", assumptions=None):
         "coverage": cov, "assumptions": assumptions or [], "wall_s": round(time.time() - ctx.t0, 1),
         "violations": len(uniq),
     }
-    os.makedirs(os.path.join(ROOT, "evidence"), exist_ok=True)
-    json.dump(ev, open(os.path.join(ROOT, "evidence", ctx.prop + ".json"), "w"), indent=1, sort_keys=True)
+    if not os.environ.get("VERIF_NO_EVIDENCE"):
+        os.makedirs(os.path.join(ROOT, "evidence"), exist_ok=True)
+        json.dump(ev, open(os.path.join(ROOT, "evidence", ctx.prop + ".json"), "w"), indent=1, sort_keys=True)
     print("%s %s: %d violation(s), %d known finding(s), %.0fs" % (ctx.prop, ctx.tier, len(uniq), len(seen_known), time.time() - ctx.t0))
     sys.exit(1 if uniq else 0)
 
